@@ -130,7 +130,7 @@ def run_idem(desc):
 @st.composite
 def canon_case(draw):
     spec = draw(treegen.tree_spec(max_dirs=5, max_files=8, fifos=False,
-                                  dangling=False, dir_links=False))
+                                  dangling=False, dir_links=True))
     mode = draw(st.sampled_from(['layout', 'layout', 'layout', 'none']))
     state = {'tree': spec, 'mode': mode, 'ignores': []}
     lay = None
